@@ -210,8 +210,14 @@ def r13d(model: Model, rr: RuleResult):
         rr.ok("alpha = paint alpha x palette alpha / 255")
     else:
         rr.bad(fi, ctor[0], f"alpha is {kw.get('alpha')}, expected paint alpha x palette alpha/255", construct=f"_color alpha={kw.get('alpha')}")
-    if kw.get("palette_index") == "palette_index if len(ttfont['CPAL'].palettes) > 1 else None":
+    from ..dataflow import resolved as _r13d
+    pv = [k.value for k in ctor[0].keywords if k.arg == "palette_index"]
+    pvr = norm(_r13d(cfg, cfg.node_for(ctor[0]), pv[0])) if pv else ""
+    PK = "palette_index if len(ttfont['CPAL'].palettes) > 1 else None"
+    if kw.get("palette_index") == PK or pvr == PK:
         rr.ok("palette_index is kept exactly when the font has more than one palette")
+    elif pv and isinstance(pv[0], ast.IfExp) and "palettes" not in pvr:
+        rr.bad_shape(fi, ctor[0], f"palette_index is {kw.get('palette_index')}: var(--colorN) must appear only for multi-palette fonts", construct=f"_color palette_index={kw.get('palette_index')}")
     else:
         rr.bad(fi, ctor[0], f"palette_index is {kw.get('palette_index')}: var(--colorN) must appear only for multi-palette fonts", construct=f"_color palette_index={kw.get('palette_index')}")
     for ch in ("red", "green", "blue"):
@@ -324,8 +330,10 @@ def gradient_geometry_rule(model: Model, rr: RuleResult):
                     ok = any(isinstance(n, ast.Attribute) and norm(n) == f"{base}.{f}" for e in exprs for n in ast.walk(e)) and not (isinstance(v, ast.Attribute) and norm(v) == f"{base}.{f}")
                 if ok:
                     rr.ok(f"{qn}: {cls}.{f} rescaled from {base}.{f}")
-                else:
+                elif v is not None and isinstance(v, ast.Attribute) and norm(v) == f"{base}.{f}":
                     rr.bad(fi, c, f"{cls}.{f} is not rescaled when the gradient is moved to another frame", construct=f"{qn}: {f}={short(v) if v is not None else '<missing>'}")
+                else:
+                    rr.bad_shape(fi, c, f"{cls}.{f} is not rescaled when the gradient is moved to another frame", construct=f"{qn}: {f}={short(v) if v is not None else '<missing>'}")
     if seen < 4:
         raise AnalysisError(f"gradient geometry: only {seen} re-framing sites found")
     # rounding keeps every geometric field too (a field reset to None is re-derived, p2 as the perpendicular of p0->p1)
